@@ -140,7 +140,16 @@ TracePointwise ==
                     IN <<sumCell(i, 1), sumCell(i, 2), sumCell(i, 3), sumCell(i, 4)>>
                        = <<tp, Cardinality(P) - tp, fp, Cardinality(N) - fp>>>>}))
 
-Next == TraceNew \/ TraceAdopt \/ TraceSwap \/ TraceCM \/ TraceRates \/ TracePointwise
+(* copy.copy / copy.deepcopy / a pickle round trip of a live object: an equal object            *)
+TraceCopy ==
+  /\ IsEvent("Copy")
+  /\ LET e == Log[l]
+         o == store[e.h]
+     IN /\ store' = (e.h2 :> o) @@ store
+        /\ Report(e, Failing({<<"C01.raised", e.exc = "">>,
+                              <<"C01.copy_equals_source", e.exc # "" \/ ObjOfRec(e.post) = o>>}))
+
+Next == TraceCopy \/ TraceNew \/ TraceAdopt \/ TraceSwap \/ TraceCM \/ TraceRates \/ TracePointwise
 Spec == Init /\ [][Next]_vars
 
 AllConsumed == TLCGet("stats").diameter - 1 = Len(Log)
